@@ -9,6 +9,7 @@ import (
 	"os"
 	"strings"
 	"sync"
+	"sync/atomic"
 	"time"
 
 	bc "github.com/lianxiangcloud/linkchain/blockchain"
@@ -43,9 +44,10 @@ type fsScenario struct {
 }
 
 type fsOutcome struct {
-	Idx     int    `json:"idx"`
-	Verdict string `json:"verdict"` // accepted | rejected | none
-	Detail  string `json:"detail"`
+	Idx     int      `json:"idx"`
+	Verdict string   `json:"verdict"` // accepted | rejected | none
+	Detail  string   `json:"detail"`
+	Retried []string `json:"retried,omitempty"` // attempts that ended without a verdict, and why
 }
 
 // ---- in-memory network ------------------------------------------------------------
@@ -54,6 +56,7 @@ type fsPeer struct {
 	cmn.BaseService
 	id      string
 	deliver func(chID byte, msg []byte)
+	sent    int64 // messages handed to Send / TrySend
 }
 
 func newFsPeer(id string, deliver func(byte, []byte)) *fsPeer {
@@ -67,6 +70,7 @@ func (p *fsPeer) NodeInfo() p2p.NodeInfo       { return p2p.NodeInfo{CachePeerID
 func (p *fsPeer) IsOutbound() bool             { return true }
 func (p *fsPeer) Status() p2p.ConnectionStatus { return p2p.ConnectionStatus{} }
 func (p *fsPeer) Send(ch byte, msg []byte) bool {
+	atomic.AddInt64(&p.sent, 1)
 	go p.deliver(ch, append([]byte{}, msg...))
 	return true
 }
@@ -75,14 +79,43 @@ func (p *fsPeer) Close() error                     { return nil }
 func (p *fsPeer) Set(string, interface{})          {}
 func (p *fsPeer) Get(string) interface{}           { return nil }
 
-type fsPeerSet struct{ peers map[string]p2p.Peer }
+type fsPeerSet struct {
+	mtx     sync.Mutex
+	peers   map[string]p2p.Peer
+	lookups int64 // GetByID calls (poolRoutine is the only caller)
+}
 
-func (s *fsPeerSet) HasID(id string) bool       { return s.peers[id] != nil }
-func (s *fsPeerSet) HasIP(string) bool          { return false }
-func (s *fsPeerSet) GetByID(id string) p2p.Peer { return s.peers[id] }
-func (s *fsPeerSet) GetByIP(string) p2p.Peer    { return nil }
-func (s *fsPeerSet) Size() int                  { return len(s.peers) }
+func (s *fsPeerSet) add(p p2p.Peer) {
+	s.mtx.Lock()
+	s.peers[p.ID()] = p
+	s.mtx.Unlock()
+}
+func (s *fsPeerSet) remove(id string) {
+	s.mtx.Lock()
+	delete(s.peers, id)
+	s.mtx.Unlock()
+}
+func (s *fsPeerSet) HasID(id string) bool {
+	s.mtx.Lock()
+	defer s.mtx.Unlock()
+	return s.peers[id] != nil
+}
+func (s *fsPeerSet) HasIP(string) bool { return false }
+func (s *fsPeerSet) GetByID(id string) p2p.Peer {
+	atomic.AddInt64(&s.lookups, 1)
+	s.mtx.Lock()
+	defer s.mtx.Unlock()
+	return s.peers[id]
+}
+func (s *fsPeerSet) GetByIP(string) p2p.Peer { return nil }
+func (s *fsPeerSet) Size() int {
+	s.mtx.Lock()
+	defer s.mtx.Unlock()
+	return len(s.peers)
+}
 func (s *fsPeerSet) List() (l []p2p.Peer) {
+	s.mtx.Lock()
+	defer s.mtx.Unlock()
 	for _, p := range s.peers {
 		l = append(l, p)
 	}
@@ -94,23 +127,32 @@ type fsConsensusStub struct{ p2p.BaseReactor }
 func (r *fsConsensusStub) SwitchToConsensus(cs.NewStatus, int) {}
 func (r *fsConsensusStub) SwitchToFastSync()                   {}
 
+type fsStop struct {
+	peer, reason string
+	lookups      int64 // peer lookups made before this call
+}
+
 type fsNet struct {
 	cmn.BaseService
 	set     *fsPeerSet
-	stopped chan string
+	stopped chan fsStop
 	cons    *fsConsensusStub
 }
 
 func newFsNet() *fsNet {
-	n := &fsNet{set: &fsPeerSet{peers: map[string]p2p.Peer{}}, stopped: make(chan string, 64), cons: &fsConsensusStub{}}
+	n := &fsNet{set: &fsPeerSet{peers: map[string]p2p.Peer{}}, stopped: make(chan fsStop, 64), cons: &fsConsensusStub{}}
 	n.BaseService = *cmn.NewBaseService(nil, "fsNet", n)
 	n.cons.BaseReactor = *p2p.NewBaseReactor("CONSENSUS", n.cons)
 	return n
 }
 func (n *fsNet) GetByID(id string) p2p.Peer { return n.set.GetByID(id) }
 func (n *fsNet) StopPeerForError(peer p2p.Peer, reason interface{}) {
+	id := ""
+	if peer != nil {
+		id = peer.ID()
+	}
 	select {
-	case n.stopped <- fmt.Sprint(reason):
+	case n.stopped <- fsStop{id, fmt.Sprint(reason), atomic.LoadInt64(&n.set.lookups)}:
 	default:
 	}
 }
@@ -120,7 +162,7 @@ func (n *fsNet) Broadcast(byte, []byte) chan bool                  { return make
 func (n *fsNet) BroadcastE(byte, string, []byte) chan bool         { return make(chan bool, 1) }
 func (n *fsNet) Peers() p2p.IPeerSet                               { return n.set }
 func (n *fsNet) LocalNodeInfo() p2p.NodeInfo                       { return p2p.NodeInfo{} }
-func (n *fsNet) NumPeers() (int, int, int)                         { return len(n.set.peers), 0, 0 }
+func (n *fsNet) NumPeers() (int, int, int)                         { return n.set.Size(), 0, 0 }
 func (n *fsNet) MarkBadNode(p2p.NodeInfo)                          {}
 func (n *fsNet) CloseAllConnection()                               {}
 
@@ -131,6 +173,7 @@ type fsApp struct {
 	height    uint64
 	blocks    map[uint64]*types.Block
 	committed chan uint64
+	loads     []uint64 // heights LoadBlock was asked for, in order (a serving node: the requests it answered)
 }
 
 func (a *fsApp) Height() uint64 {
@@ -142,7 +185,13 @@ func (a *fsApp) LoadBlockMeta(h uint64) *types.BlockMeta { return nil }
 func (a *fsApp) LoadBlock(h uint64) *types.Block {
 	a.mtx.Lock()
 	defer a.mtx.Unlock()
+	a.loads = append(a.loads, h)
 	return a.blocks[h]
+}
+func (a *fsApp) loaded() []uint64 {
+	a.mtx.Lock()
+	defer a.mtx.Unlock()
+	return append([]uint64{}, a.loads...)
 }
 func (a *fsApp) LoadBlockPart(h uint64, i int) *types.Part        { return nil }
 func (a *fsApp) LoadBlockCommit(h uint64) *types.Commit           { return nil }
@@ -216,8 +265,8 @@ func fsRun(sc fsScenario, seed int64) (verdict, detail string) {
 	var clientAtServer, serverAtClient *fsPeer
 	clientAtServer = newFsPeer("client", func(ch byte, msg []byte) { client.Receive(ch, serverAtClient, msg) })
 	serverAtClient = newFsPeer("server", func(ch byte, msg []byte) { server.Receive(ch, clientAtServer, msg) })
-	serverNet.set.peers["client"] = clientAtServer
-	clientNet.set.peers["server"] = serverAtClient
+	serverNet.set.add(clientAtServer)
+	clientNet.set.add(serverAtClient)
 	if err := client.Start(); err != nil {
 		return "none", "client start: " + err.Error()
 	}
@@ -225,17 +274,44 @@ func fsRun(sc fsScenario, seed int64) (verdict, detail string) {
 	// the serving node greets the syncing one with its status (height 2)
 	server.AddPeer(clientAtServer)
 	deadline := time.After(15 * time.Second)
+	poll := time.NewTicker(5 * time.Millisecond)
+	defer poll.Stop()
+	redoSeen := 0
 	for {
 		select {
 		case h := <-clientApp.committed:
 			return "accepted", fmt.Sprintf("block %d committed", h)
-		case r := <-clientNet.stopped:
+		case st := <-clientNet.stopped:
+			r := st.reason
 			if strings.Contains(r, "validation error") {
 				return "rejected", r
 			}
 			// a peer error of the block pool (its receive-rate / silence timers fire when the machine
 			// is overloaded): no verdict about the commit, the attempt is abandoned
 			return "none", "peer stopped for another reason: " + r
+		case <-poll.C:
+			// poolRoutine looked a peer up twice without sending a request: the two RedoRequests of a rejected
+			// pair.  No peer error is reported when BlockPool.RedoRequest returns request.peerID after the
+			// requester has already reset it (it reads the field after removePeer).
+			if atomic.LoadInt64(&clientNet.set.lookups)-atomic.LoadInt64(&serverAtClient.sent) >= 2 {
+				if redoSeen++; redoSeen >= 3 {
+					select {
+					case st := <-clientNet.stopped:
+						if strings.Contains(st.reason, "validation error") {
+							return "rejected", st.reason
+						}
+					default:
+					}
+					select {
+					case h := <-clientApp.committed:
+						return "accepted", fmt.Sprintf("block %d committed", h)
+					case <-time.After(60 * time.Millisecond):
+					}
+					return "rejected", "the pair was rejected (both requests redone) but no peer was stopped for error"
+				}
+			} else {
+				redoSeen = 0
+			}
 		case <-deadline:
 			return "none", "neither a commit nor a validation error within 15 s"
 		}
@@ -246,6 +322,13 @@ func fsRun(sc fsScenario, seed int64) (verdict, detail string) {
 func fsChild(c *core.Ctx) {
 	var scs []fsScenario
 	data, err := ioutil.ReadFile(c.Child) // the job argument is the path of the scenario file
+	if err == nil && len(data) > 0 && data[0] == '{' {
+		var job fsTripleJob
+		if err = json.Unmarshal(data, &job); err == nil {
+			fsTripleChild(c, job.Triples)
+			return
+		}
+	}
 	if err == nil {
 		err = json.Unmarshal(data, &scs)
 	}
@@ -264,12 +347,14 @@ func fsChild(c *core.Ctx) {
 			sem <- struct{}{}
 			defer func() { <-sem }()
 			var v, d string
+			var retried []string
 			for attempt := 0; attempt < 4; attempt++ {
 				if v, d = fsRun(sc, c.Seed); v != "none" {
 					break
 				}
+				retried = append(retried, d)
 			}
-			b, _ := json.Marshal(fsOutcome{Idx: i, Verdict: v, Detail: d})
+			b, _ := json.Marshal(fsOutcome{Idx: i, Verdict: v, Detail: d, Retried: retried})
 			mu.Lock()
 			fmt.Fprintf(w, "AT %d\nRESULT %s\n", i, b)
 			w.Flush()
@@ -355,10 +440,14 @@ func replayFastSync(c *core.Ctx, m *model) {
 		}
 	}
 	accepted, rejected := 0, 0
+	var retried []string
 	for i, sc := range scs {
 		o, ok := got[i]
 		if !ok {
 			continue
+		}
+		for _, r := range o.Retried {
+			retried = append(retried, fmt.Sprintf("scenario %d: %s", i, r))
 		}
 		c.AddTraces(1)
 		c.AddEvals(1)
@@ -383,6 +472,6 @@ func replayFastSync(c *core.Ctx, m *model) {
 	} else if crash != "" {
 		c.Infra("the fast-sync child process died (last reported scenario %s): %s", at, crash)
 	}
-	c.SetExtra("fastsync_reactor", map[string]interface{}{"scenarios": len(scs), "block_committed": accepted, "peer_stopped": rejected})
+	c.SetExtra("fastsync_reactor", map[string]interface{}{"scenarios": len(scs), "block_committed": accepted, "peer_stopped": rejected, "attempts_without_verdict_repeated": retried})
 	c.Out().Distinct += len(got)
 }
